@@ -408,6 +408,9 @@ func judgeAfterRestart(r *Result, prop string, backend string) []Violation {
 			v.Features = map[string]string{}
 		}
 		v.Features["backend"] = backendClass(backend)
+		if cls == "subscription-not-restored" || cls == "discarded-state-resurrected" || cls == "unexpected-delivery-after-restart" {
+			v.Features["key_collision"] = fmt.Sprint(planKeyCollision(r.Plan))
+		}
 		v.Detail = "[" + backend + "] after restart: " + v.Detail
 		out = append(out, v)
 	}
@@ -459,6 +462,34 @@ func judgeAfterRestart(r *Result, prop string, backend string) []Violation {
 }
 
 func backendClass(b string) string { return b }
+
+// planKeyCollision reports whether two different (client id, filter) subscriptions of the plan concatenate to
+// the same "<id>:<filter>" string (the storage key the bundled backends derive for a subscription).
+func planKeyCollision(p *Plan) bool {
+	slotID := map[int]string{}
+	keys := map[string]string{}
+	for i := range p.Ops {
+		op := &p.Ops[i]
+		if op.Pkt == nil {
+			continue
+		}
+		switch op.Kind {
+		case "connect":
+			slotID[op.Slot] = op.Pkt.ClientID
+		case "subscribe":
+			id := slotID[op.Slot]
+			for _, f := range op.Pkt.Filters {
+				k := id + ":" + f.Filter
+				pair := id + "\x00" + f.Filter
+				if prev, ok := keys[k]; ok && prev != pair {
+					return true
+				}
+				keys[k] = pair
+			}
+		}
+	}
+	return false
+}
 
 func runC20(p *Profile, seed uint64, rf *ReplayFile) *RunOutcome {
 	var sc *StoreCase
@@ -812,10 +843,8 @@ func storedView(h mqtt.Hook) map[string][]string {
 	for _, m := range inf {
 		v["inflight"] = append(v["inflight"], fmt.Sprintf("%s|%s|%s|q%d|pid=%d", m.Client, m.TopicName, m.Payload, m.FixedHeader.Qos, m.PacketID))
 	}
-	si, err := h.StoredSysInfo()
-	if err == nil {
-		v["sysinfo"] = append(v["sysinfo"], fmt.Sprintf("uptime=%d|retained=%d|subs=%d|ver=%s", si.Uptime, si.Retained, si.Subscriptions, si.Version))
-	}
+	si, _ := h.StoredSysInfo() // "nothing stored" may be reported as an error or as the zero value: both read as zero
+	v["sysinfo"] = append(v["sysinfo"], fmt.Sprintf("uptime=%d|retained=%d|subs=%d|ver=%s", si.Uptime, si.Retained, si.Subscriptions, si.Version))
 	for k := range v {
 		sort.Strings(v[k])
 	}
@@ -888,9 +917,10 @@ func refStoredView(evs []StoreEvent) map[string][]string {
 	for _, s := range inf {
 		v["inflight"] = append(v["inflight"], s)
 	}
-	if sys != "" {
-		v["sysinfo"] = []string{sys}
+	if sys == "" {
+		sys = "uptime=0|retained=0|subs=0|ver=" // nothing stored reads back as the zero value
 	}
+	v["sysinfo"] = []string{sys}
 	for k := range v {
 		sort.Strings(v[k])
 	}
@@ -940,7 +970,22 @@ func runC22(p *Profile, seed uint64, rf *ReplayFile) *RunOutcome {
 		for _, b := range backends {
 			got := strings.Join(views[b][kd], " ; ")
 			if got != want {
-				o.Violations = append(o.Violations, viol("C22", "differs-from-model", fmt.Sprintf("%s after %d events: %s returns [%s], the in-memory model holds [%s]", kd, len(evs), b, got, want), -1, "what", kd, "backend", b, "why", storeDiffWhy(got, want)))
+				feats := []string{"what", kd, "backend", b, "why", storeDiffWhy(got, want)}
+				if kd == "subscriptions" {
+					// do two different (client, filter) pairs concatenate to the same "<client>:<filter>"?
+					keys, coll := map[string]string{}, false
+					for _, e := range evs {
+						if e.Op == "subscribed" {
+							k, pair := e.Client+":"+e.Filter, e.Client+"\x00"+e.Filter
+							if prev, ok := keys[k]; ok && prev != pair {
+								coll = true
+							}
+							keys[k] = pair
+						}
+					}
+					feats = append(feats, "key_collision", fmt.Sprint(coll))
+				}
+				o.Violations = append(o.Violations, viol("C22", "differs-from-model", fmt.Sprintf("%s after %d events: %s returns [%s], the in-memory model holds [%s]", kd, len(evs), b, got, want), -1, feats...))
 			}
 		}
 	}
@@ -960,8 +1005,13 @@ func runC22(p *Profile, seed uint64, rf *ReplayFile) *RunOutcome {
 }
 
 func storeDiffWhy(got, want string) string {
-	g := strings.Split(got, " ; ")
-	w := strings.Split(want, " ; ")
+	var g, w []string
+	if got != "" {
+		g = strings.Split(got, " ; ")
+	}
+	if want != "" {
+		w = strings.Split(want, " ; ")
+	}
 	if len(g) < len(w) {
 		return "entries-missing"
 	}
